@@ -10,9 +10,9 @@ ID = "C18"
 LEVEL = "exploration"
 RULE = (
     "event histories over {connect, send-partial, send-complete (small / large response), client-reads, client-stalls, "
-    "app-finishes, advance-clock(1 | channel_timeout | long)} driven by a director on a virtual clock against the real "
+    "app-finishes, app-raises-SystemExit (random and directed histories), advance-clock(1 | channel_timeout | long)} driven by a director on a virtual clock against the real "
     "server loop (asyncore_loop_timeout 1) for connection_limit in {4,5,8,12} (24 in a directed history), channel_timeout in {3,10}, cleanup_interval "
-    "in {1,4}, 1-2 listening sockets, 1-2 workers; applications block on scenario events. ALL histories up to length 4 "
+    "in {1,4}, 1-2 listening sockets (two: MultiSocketServer.run() is the loop), 1-3 workers; applications block on scenario events. ALL histories up to length 4 "
     "(quick) / 5 (thorough) over the 10-letter alphabet with deterministic target selection, random histories up to "
     "length 14 beyond. Monitors: socket-map size at every mutation and at every accept; per connection the virtual "
     "times of activity, of request execution and of the server-initiated close. distinct = (configuration, history)"
